@@ -1,6 +1,8 @@
 """C16 — an outgoing payment is never paid twice nor beyond its amount; status truthful;
 KV and SQL payment stores answer alike."""
 from lib.verif import *
+import hashlib
+import shutil
 
 THEOREMS = [
     "C16_never_overpay", "C16_register_gate", "C16_init_gate", "C16_status_truth",
@@ -9,11 +11,12 @@ THEOREMS = [
 ]
 MODULE = "LV.Payments.Props"
 TARGETS = ["theories/Payments/Props.vo", "theories/Payments/Exec.vo",
-           "theories/Payments/Examples.vo"]
-HARNESS = ["payments/verif_store_test.go"]
+           "theories/Payments/Examples.vo", "theories/Payments/Lin.vo"]
+HARNESS = ["payments/verif_store_test.go", "payments/verif_concurrent_test.go"]
 WARM = [{"pkg": "payments/db", "files": HARNESS, "tags": "verif test_db_sqlite"}]
 IMPORTS = ("From Coq Require Import List NArith Bool.\nImport ListNotations.\n"
            "From LV Require Import Payments.Model Payments.Exec.\n")
+IMPORTS_LIN = IMPORTS + "From LV Require Import Payments.Lin.\n"
 
 ERR = ["EOk", "EOther", "EAlreadyPaid", "EPaymentInFlight", "EPaymentExists", "ENotInitiated",
        "EAlreadySucceeded", "EAlreadyFailed", "EAttSettled", "EAttFailed", "EValueMismatch",
@@ -229,6 +232,387 @@ def kvsql_compare(c):
     return None, errclass
 
 
+# ---------------------------------------------------------------------------
+# Concurrent histories (harness/payments/verif_concurrent_test.go): linearisability
+# against the Coq model.  Search: the model's `step` extracted to OCaml
+# (ExtrOcamlBasic only; N stays the extracted Coq datatype) + ocaml/c16_lin.ml (WGL).
+# Every witness order the search finds is re-validated by the Coq kernel
+# (Payments/Lin.v `lin_witness_ok`, vm_compute), so "linearisable" is the kernel's
+# verdict; "not linearisable" (= VIOLATION) rests on the extracted search.
+
+EXTRACT_V = ("Require Extraction.\nRequire Import ExtrOcamlBasic.\n"
+             "From LV Require Import Payments.Model Payments.Exec Payments.Lin.\n"
+             'Extraction "payments_model.ml" lin_step lin_resp_eqb lin_empty lin_check_case.\n')
+
+
+def build_lin_checker():
+    """Extract + compile (cached on the hash of the .v inputs and the driver).
+    Returns (exe or None, log)."""
+    drv = os.path.join(ROOT, "ocaml", "c16_lin.ml")
+    hsh = hashlib.sha1(EXTRACT_V.encode())
+    for f in [os.path.join(THEORIES, "Payments", x) for x in ("Model.v", "Exec.v", "Lin.v")] + [drv]:
+        hsh.update(open(f, "rb").read())
+    d = os.path.join(BUILD, "c16_ocaml", hsh.hexdigest()[:16])
+    exe = os.path.join(d, "c16_lin")
+    with Lock("c16_ocaml"):
+        if os.path.exists(exe):
+            return exe, "cached"
+        shutil.rmtree(os.path.join(BUILD, "c16_ocaml"), ignore_errors=True)
+        os.makedirs(d)
+        with open(os.path.join(d, "extract.v"), "w") as f:
+            f.write(EXTRACT_V)
+        rc, out = sh(["coqc", "-Q", THEORIES, "LV", "-w", "none", "extract.v"], cwd=d, timeout=600)
+        if rc != 0:
+            return None, "extraction failed:\n" + out
+        shutil.copy(drv, d)
+        rc, out2 = sh(["ocamlfind", "ocamlopt", "-O3", "-w", "-a", "payments_model.mli",
+                       "payments_model.ml", "c16_lin.ml", "-o", "c16_lin.tmp"], cwd=d, timeout=600)
+        if rc != 0:
+            rc, out2 = sh(["ocamlfind", "ocamlopt", "-w", "-a", "payments_model.mli",
+                           "payments_model.ml", "c16_lin.ml", "-o", "c16_lin.tmp"], cwd=d,
+                          timeout=600)
+        if rc != 0:
+            return None, "ocamlopt failed:\n" + out2
+        os.rename(os.path.join(d, "c16_lin.tmp"), exe)
+        return exe, out + out2
+
+
+def btok(n):
+    return bin(int(n))[2:]
+
+
+OPTOK = {"init": "i", "settle": "s", "failatt": "f", "fail": "F", "delfailed": "D",
+         "fetch": "g"}
+
+
+def op_tok(o):
+    k = o[0]
+    if k == "reg":
+        return " ".join(["r", btok(o[1]), btok(o[2]), btok(o[3]), "1" if o[4] else "0",
+                         btok(o[5]), btok(o[6]), "1" if o[7] else "0", btok(o[8])])
+    if k == "delpay":
+        return "d %s %s" % (btok(o[1]), "1" if o[2] else "0")
+    if k == "inflight":
+        return "l"
+    return " ".join([OPTOK[k]] + [btok(x) for x in o[1:]])
+
+
+def proj_tok(p):
+    if p["st"] not in STATUS:     # not a status of the model: compare unequal, visibly
+        return "1 0 0 %s 0 0 - 0" % btok(99999)
+    return " ".join([str(p["st"]), btok(p["val"]), btok(p["rem"]), btok(p["nif"]),
+                     "1" if p["hs"] else "0", "1" if p["pf"] else "0",
+                     "-" if p["fr"] is None else btok(p["fr"]), str(len(p["at"]))]
+                    + ["%s %s %d" % (btok(a[0]), btok(a[1]), a[2]) for a in p["at"]])
+
+
+def resp_tok(r):
+    t = [str(r["e"])]
+    t.append("0" if r["p"] is None else "1 " + proj_tok(r["p"]))
+    t.append(str(len(r["l"])))
+    t += ["%s %s" % (btok(x[0]), proj_tok(x[1])) for x in r["l"]]
+    return " ".join(t)
+
+
+def lin_line(be, hist):
+    return " ".join(["L", "0" if be == "kv" else "1", str(len(hist))]
+                    + ["%d %d %s %s" % (c["inv"], c["ret"], op_tok(c["op"]), resp_tok(c["r"]))
+                       for c in hist])
+
+
+def seq_line(c):
+    return " ".join(["S", str(len(c["steps"]))]
+                    + ["%s %s %s" % (op_tok(s["op"]), resp_tok(s["kv"]), resp_tok(s["sql"]))
+                       for s in c["steps"]])
+
+
+def run_lin(exe, lines):
+    """Feed records to the extracted checker (a few processes in parallel).
+    Returns (list of output lines or None, log)."""
+    from concurrent.futures import ThreadPoolExecutor
+    if not lines:
+        return [], ""
+    nsh = max(1, min(8, NCPU // 2, len(lines) // 50 + 1))
+    step = (len(lines) + nsh - 1) // nsh
+    chunks = [lines[i:i + step] for i in range(0, len(lines), step)]
+
+    def one(chunk):
+        rc, out = sh([exe], stdin="\n".join(chunk) + "\n", timeout=1500)
+        res = out.split("\n")[:-1] if rc == 0 else []
+        if rc != 0 or len(res) != len(chunk):
+            return None, "rc=%d %s" % (rc, out[-1500:])
+        return res, ""
+    res = []
+    with ThreadPoolExecutor(max_workers=nsh) as ex:
+        for v, err in ex.map(one, chunks):
+            if v is None:
+                return None, err
+            res += v
+    return res, ""
+
+
+def cop_term(c):
+    return "(mkCop (%s) %s %s %s)" % (op_term(c["op"]), cN(c["inv"]), cN(c["ret"]),
+                                      resp_term(c["r"]))
+
+
+def lin_case_term(be, hist, w):
+    return "(%s, %s, %s)" % ("KV" if be == "kv" else "SQL",
+                             clist([cop_term(c) for c in hist]),
+                             clist([cnat(i) for i in w]))
+
+
+def perturb(c, k):
+    """A copy of sequential case c with ONE recorded answer changed (deterministic in
+    k): used to show that the extracted checker and the kernel evaluation reject the
+    same answers at the same indices."""
+    import copy
+    d = copy.deepcopy(c)
+    n = len(d["steps"])
+    si = (k * 7 + 3) % n
+    be = "kv" if k % 2 == 0 else "sql"
+    r = d["steps"][si][be]
+    if r["p"] is not None and k % 3 != 0:
+        if k % 3 == 1:
+            r["p"]["rem"] += 1
+        else:
+            r["p"]["st"] = r["p"]["st"] % 4 + 1
+    else:
+        r["e"] = (r["e"] + 1 + k % 5) % len(ERR)
+    return d
+
+
+def overlaps(a, b):
+    return a["inv"] < b["ret"] and b["inv"] < a["ret"]
+
+
+def could_be_between(e, a, b):
+    """e may take effect after a and before b (necessary condition on the intervals)."""
+    return e["ret"] > a["inv"] and e["inv"] < b["ret"]
+
+
+def conc_predicate(row, be):
+    """Safety predicates on ONE backend's concurrent history, independent of the model.
+    Returns [(theorem, message, index of the op)]."""
+    fails = []
+    hist = [c for c in row[be] if not c["r"].get("ab")]
+    disc = row["mode"] == "disc"
+    obs = {}          # h -> [(op record, status or None (=unknown payment), index)]
+    inits, enablers, fulldel, resolved = {}, {}, {}, {}
+    for i, c in enumerate(hist):
+        o, r = c["op"], c["r"]
+        k = o[0]
+        h = o[1] if k != "inflight" else None
+        ok = r["e"] == 0
+        if r["e"] == 22:
+            fails.append(("never_overpay", "%s answered ErrSentExceedsTotal: the store holds "
+                          "more settled+in-flight value than the payment amount" % k, i))
+        projs = ([(h, r["p"])] if r["p"] is not None else []) + [(x[0], x[1]) for x in r["l"]]
+        for hh, p in projs:
+            for m in proj_fails(p, True):
+                fails.append((m.split(":")[0], m, i))
+            obs.setdefault(hh, []).append((c, p["st"], i))
+        if k == "fetch" and r["e"] == 5:
+            obs.setdefault(h, []).append((c, None, i))
+        if k == "inflight" and ok:
+            for hh, p in projs:
+                if p["st"] not in (1, 2):
+                    fails.append(("status_truth", "FetchInFlightPayments returned a terminated "
+                                  "payment", i))
+        if k == "reg" and ok:
+            p = r["p"]
+            if p is None:
+                fails.append(("register_gate", "RegisterAttempt ok without payment", i))
+            elif any(a[2] == 1 for a in p["at"]) or p["fr"] is not None or p["st"] != 2:
+                fails.append(("register_gate", "attempt admitted into a payment that is settled "
+                              "/ failed (status %d after registration)" % p["st"], i))
+        if ok and k == "init":
+            inits.setdefault(h, []).append((c, i))
+        if ok and (k == "fail" or (k == "delpay" and not o[2])):
+            enablers.setdefault(h, []).append(c)
+        if ok and k == "delpay" and not o[2]:
+            fulldel.setdefault(h, []).append(c)
+        if ok and k in ("settle", "failatt") and disc:
+            resolved.setdefault((h, o[2]), []).append(i)
+    # at most one successful InitPayment per hash unless a Fail / full delete intervened
+    for h, li in inits.items():
+        en = enablers.get(h, [])
+        if len(li) > 1 + len(en):
+            fails.append(("init_gate", "%d successful InitPayment of hash %d but only %d "
+                          "successful Fail/DeletePayment" % (len(li), h, len(en)), li[-1][1]))
+        for a, ia in li:
+            for b, ib in li:
+                if a["ret"] < b["inv"] and not any(could_be_between(e, a, b) for e in en):
+                    fails.append(("init_gate", "InitPayment of hash %d succeeded twice with no "
+                                  "successful Fail/DeletePayment in between" % h, ib))
+    # Succeeded is final (until the payment is deleted)
+    for h, lo in obs.items():
+        for a, sa, ia in lo:
+            if sa != 3:
+                continue
+            for b, sb, ib in lo:
+                if sb != 3 and a["ret"] < b["inv"] \
+                        and not any(could_be_between(e, a, b) for e in fulldel.get(h, [])):
+                    fails.append(("terminal_stable", "payment %d reported Succeeded, later "
+                                  "reported %s without a DeletePayment in between"
+                                  % (h, STATUS.get(sb, "unknown")), ib))
+    # disciplined programs: an attempt is resolved at most once
+    for (h, aid), li in resolved.items():
+        if len(li) > 1:
+            fails.append(("status_truth", "attempt %d of payment %d settled/failed "
+                          "successfully %d times" % (aid, h, len(li)), li[-1]))
+    return fails
+
+
+def conc_stage(ctx, crows, seq_rows, seq_terms):
+    """Linearisability + safety predicates on the concurrent histories; ties the extracted
+    model to the kernel.  Returns (extra Coq terms, callback(bad entries)) so that the
+    caller evaluates everything in ONE coq_mismatches call per kind."""
+    cov = {"programs": len(crows)}
+    nviol = 0
+    # ---- safety predicates (all modes, both backends)
+    pe = 0
+    for row in crows:
+        for be in ("kv", "sql"):
+            pe += 1
+            fl = conc_predicate(row, be)
+            if fl and nviol < 4:
+                nviol += 1
+                th, msg, i = fl[0]
+                ctx.violation("impl_violates_predicate", "C16_" + th,
+                              {"backend": be, "concurrent_program": row["case"],
+                               "mode": row["mode"], "first_failure": msg, "at_op": i,
+                               "all": fl[:6], "history(g,op,inv,ret,answer)": row[be]},
+                              signature="C16 conc %s %s: %s" % (be, th, msg))
+    cov["predicate_evaluations"] = pe
+
+    # ---- linearisability (disciplined programs)
+    exe, xlog = build_lin_checker()
+    if exe is None:
+        ctx.violation("correspondence_mismatch", "Payments.Lin (extracted checker failed to "
+                      "build)", {"log": xlog[-3000:]}, signature="lin-build", failing_input=False)
+        return cov, [], None
+    jobs = []
+    aborted = 0
+    for row in crows:
+        for be in ("kv", "sql"):
+            ab = [c for c in row[be] if c["r"].get("ab")]
+            aborted += len(ab)
+            if row["mode"] != "disc":
+                continue
+            jobs.append((row, be, [c for c in row[be] if not c["r"].get("ab")]))
+    outs, err = run_lin(exe, [lin_line(be, h) for _, be, h in jobs])
+    if outs is None:
+        ctx.violation("correspondence_mismatch", "Payments.Lin (extracted checker failed)",
+                      {"log": err}, signature="lin-run", failing_input=False)
+        return cov, [], None
+    lin_terms, lin_jobs = [], []
+    nonlin = 0
+    states = 0
+    for (row, be, h), line in zip(jobs, outs):
+        head, _, st = line.partition(" # ")
+        states += int(st or 0)
+        t = head.split()
+        w = [int(x) for x in t[1:]]
+        if t[0] == "Y":
+            lin_terms.append(lin_case_term(be, h, w))
+            lin_jobs.append((row, be, h, w))
+            continue
+        nonlin += 1
+        if nviol < 6:
+            nviol += 1
+            stuck = [h[i] for i in range(len(h)) if i not in w]
+            first = min(stuck, key=lambda c: c["ret"]) if stuck else None
+            ctx.violation(
+                "impl_violates_predicate", "C16 linearisability (Payments.Lin)",
+                {"backend": be, "concurrent_program": row["case"], "goroutines": row["ng"],
+                 "what": "no order of these completed operations that respects real time makes "
+                         "the sequential model give the recorded answers",
+                 "longest_linearisable_prefix(positions)": w,
+                 "first_unexplained_op": first,
+                 "history(g,op,inv,ret,answer)": h},
+                signature="C16 nonlinearisable %s %s" % (be, first["op"][0] if first else "?"))
+    # ---- extraction tie on the sequential histories: every case through the extracted
+    #      check_case, plus perturbed copies of a slice through BOTH evaluators
+    slice_ = [c for c in seq_rows if c["mode"] != "wrap"][:40]
+    pert = [perturb(c, k) for k, c in enumerate(slice_)]
+    souts, err = run_lin(exe, [seq_line(c) for c in seq_rows + pert])
+    if souts is None:
+        ctx.violation("correspondence_mismatch", "Payments.Lin (extracted check_case failed)",
+                      {"log": err}, signature="lin-run", failing_input=False)
+        return cov, [], None
+    extracted = [[int(x) for x in l.split()[1:]] for l in souts]
+    pert_terms = [case_term(c) for c in pert]
+
+    def after(seq_bad, lin_bad, ok_lin):
+        """seq_bad: kernel result for seq_rows + pert (case index -> indices)."""
+        kb = dict(seq_bad)
+        dis = 0
+        for i in range(len(seq_rows) + len(pert)):
+            if kb.get(i, []) != extracted[i]:
+                dis += 1
+                if dis <= 2:
+                    c = (seq_rows + pert)[i]
+                    ctx.violation("correspondence_mismatch",
+                                  "extracted model vs kernel evaluation disagree",
+                                  {"case": c["case"], "perturbed": i >= len(seq_rows),
+                                   "kernel": kb.get(i, []), "extracted": extracted[i]},
+                                  signature="extraction", failing_input=False)
+        undetected = [k for k in range(len(pert)) if not kb.get(len(seq_rows) + k)]
+        if undetected:
+            ctx.violation("correspondence_mismatch", "perturbed answer not rejected by the model",
+                          {"perturbed_cases": undetected[:5]}, signature="perturbation",
+                          failing_input=False)
+        cov["extraction_tie"] = {"sequential_cases_through_both": len(seq_rows),
+                                 "perturbed_cases_through_both": len(pert),
+                                 "disagreements": dis,
+                                 "perturbations_rejected_by_both": len(pert) - len(undetected)}
+        if not ok_lin:
+            return
+        for ci, idx in lin_bad[:3]:
+            row, be, h, w = lin_jobs[ci]
+            ctx.violation("correspondence_mismatch", "Payments.Lin.lin_witness_ok (kernel rejects "
+                          "the witness order found by the extracted search)",
+                          {"backend": be, "concurrent_program": row["case"], "witness": w,
+                           "rejected_at": idx, "history": h},
+                          signature="C16 lin-witness-rejected %s" % be, failing_input=False)
+        cov["witnesses_validated_by_kernel"] = len(lin_jobs) - len(lin_bad)
+
+    # ---- coverage of the concurrent run
+    opk, errk, modes, ngs = {}, {"kv": {}, "sql": {}}, {}, {}
+    ovl = tot = nops = reord = 0
+    for row in crows:
+        modes[row["mode"]] = modes.get(row["mode"], 0) + 1
+        ngs[row["ng"]] = ngs.get(row["ng"], 0) + 1
+        for be in ("kv", "sql"):
+            h = row[be]
+            nops += len(h)
+            for c in h:
+                key = c["op"][0] + (":ok" if c["r"]["e"] == 0 else ":err")
+                opk[key] = opk.get(key, 0) + 1
+                e = ERR[c["r"]["e"]]
+                errk[be][e] = errk[be].get(e, 0) + 1
+            for i, a in enumerate(h):
+                for b in h[i + 1:]:
+                    tot += 1
+                    ovl += overlaps(a, b)
+    for row, be, h, w in lin_jobs:
+        # witness differs from the order of invocation: the search had to reorder
+        byinv = sorted(range(len(h)), key=lambda i: h[i]["inv"])
+        reord += (byinv != w)
+    cov.update({"histories": 2 * len(crows), "ops_total": nops, "modes": modes,
+                "goroutines": ngs, "op_kinds": opk, "error_kinds": errk,
+                "overlapping_op_pairs": ovl, "op_pairs": tot,
+                "linearisability_checked": len(jobs), "non_linearisable": nonlin,
+                "witness_not_in_invocation_order": reord,
+                "search_states": states, "aborted_ops(serialization/busy, dropped)": aborted,
+                "kv_sql_final_states_differ": sum(
+                    1 for row in crows if row["mode"] == "disc" and
+                    [c["r"] for c in row["kv"] if c["g"] == -2] !=
+                    [c["r"] for c in row["sql"] if c["g"] == -2])})
+    return cov, (pert_terms, lin_terms), after
+
+
 def run(ctx):
     pr = ctx.proof_stage(MODULE, THEOREMS, TARGETS, extra_trusted=[
         "one model step = one DB transaction (kvdb.Batch/Update, sqldb ExecTx): bbolt/sqlite "
@@ -240,14 +624,25 @@ def run(ctx):
     env = {}
     if ctx.thorough:
         env["VERIF_CHUNK"] = "40"
-    rc, trace, out = run_harness(ctx.uid(), "payments/db", HARNESS, "^TestVerifPayments$",
+    # one `go test` run (one compile): the sequential correspondence test and the
+    # concurrent test; the latter writes its histories to VERIF_OUT_CONC
+    ctrace = os.path.join(BUILD, "trace_%s_conc.jsonl" % ctx.uid())
+    try:
+        os.remove(ctrace)
+    except FileNotFoundError:
+        pass
+    env["VERIF_OUT_CONC"] = ctrace
+    rc, trace, out = run_harness(ctx.uid(), "payments/db", HARNESS,
+                                 "^(TestVerifPayments|TestVerifPaymentsConc)$",
                                  env=env, tags="verif test_db_sqlite", timeout=2400,
                                  race=False)
     rows = read_jsonl(trace)
-    if rc != 0 or not rows:
-        ctx.violation("harness_failed", "TestVerifPayments", {"log": out[-4000:]},
-                      signature="harness", failing_input=False)
+    crows = read_jsonl(ctrace)
+    if rc != 0 or not rows or not crows:
+        ctx.violation("harness_failed", "TestVerifPayments/TestVerifPaymentsConc",
+                      {"log": out[-4000:]}, signature="harness", failing_input=False)
         return
+    crows.sort(key=lambda r: r["case"])
 
     # ---- property predicate on the implementation's own answers
     nviol = 0
@@ -307,8 +702,27 @@ def run(ctx):
 
     # ---- correspondence: model (KV step, SQL step) vs both implementations
     terms = [case_term(c) for c in rows]
-    ok, bad, logs = coq_mismatches(ctx.uid(), IMPORTS, terms,
-                                   shard=max(4, len(terms) // (2 * NCPU) + 1))
+    # ---- concurrent histories: predicates, linearisability search (extracted model);
+    #      its Coq obligations (perturbed sequential cases, witness orders) are evaluated
+    #      by the kernel below
+    ccov, extra, after = conc_stage(ctx, crows, rows, terms)
+    ctx.cov["concurrent"] = ccov
+    pert_terms, lin_terms = extra if after else ([], [])
+    from concurrent.futures import ThreadPoolExecutor
+    with ThreadPoolExecutor(max_workers=2) as ex:
+        f1 = ex.submit(coq_mismatches, ctx.uid(), IMPORTS, terms + pert_terms,
+                       shard=max(4, (len(terms) + len(pert_terms)) // (2 * NCPU) + 1))
+        f2 = ex.submit(coq_mismatches, ctx.uid("lin"), IMPORTS_LIN, lin_terms,
+                       shard=max(4, len(lin_terms) // NCPU + 1), mism="lin_mismatches")
+        ok, bad_all, logs = f1.result()
+        ok_lin, lin_bad, lin_logs = f2.result()
+    bad = [(ci, idx) for ci, idx in bad_all if ci < len(rows)]
+    if after:
+        if not ok_lin:
+            ctx.violation("correspondence_mismatch", "Payments.Lin (witness evaluation failed)",
+                          {"logs": lin_logs}, signature="model-eval", failing_input=False)
+        if ok:
+            after(bad_all, lin_bad, ok_lin)
     if not ok:
         ctx.violation("correspondence_mismatch", "Payments.Exec (model evaluation failed)",
                       {"logs": logs}, signature="model-eval", failing_input=False)
